@@ -283,7 +283,36 @@ def ref_fields(ctx: Ctx) -> RuleResult:
                     r.ob(ok, {"edges built from": [norm_src(x) for x in srcs], "in": m.short})
     r.require(n_edge >= 1, "no graph-edge construction from node dependencies found")
     r.require(n_sites >= 4, f"only {n_sites} reference-handling functions found")
+    _partial_enumerations(ctx, r)
     return r
+
+
+def _partial_enumerations(ctx: Ctx, r: RuleResult) -> None:
+    """An expression that gathers the references of ONE node from its positional and keyword arguments (chain(x.args, x.kwargs.values()),
+    x.args + list(x.kwargs.values()) ..) and not from its activation flag enumerates two of the three reference fields."""
+    for f in pkg_funcs(ctx):
+        for n in iter_own_nodes(f.node):
+            parts = None
+            if isinstance(n, ast.Call) and (dotted(n.func) or "").split(".")[-1] in ("chain", "from_iterable") and len(n.args) >= 2:
+                parts = list(n.args)
+            elif isinstance(n, ast.BinOp) and isinstance(n.op, ast.Add):
+                parts = [n.left, n.right]
+            if not parts:
+                continue
+            srcs = [norm_src(p_) for p_ in parts]
+            objs_a = {s_[:-len(".args")] for s_ in srcs if s_.endswith(".args")} | {s_[5:-len(".args)")] for s_ in srcs if s_.startswith("list(") and s_.endswith(".args)")}
+            objs_k = set()
+            for s_ in srcs:
+                for suf in (".kwargs.values()", ".kwargs.values())"):
+                    if s_.endswith(suf):
+                        objs_k.add(s_[:-len(suf)].replace("list(", "").replace("tuple(", ""))
+            both = objs_a & objs_k
+            if both and not any(".active" in s_ for s_ in srcs):
+                x = sorted(both)[0]
+                r.ob(False, {"in": f.short, "references enumerated without the activation flag": norm_src(n)[:100]})
+                r.violate(f"{f.short}: the references of '{x}' are enumerated from its args and kwargs only ({norm_src(n)[:70]})", f.loc(n),
+                          "the activation flag is a reference of the node like any argument (ExecNode.dependencies lists all three): a site "
+                          "that decides from args and kwargs alone skips a node whose only link to the value is `twz_active=<value>`", norm_src(n)[:120])
 
 
 def _activation_funcs(ctx: Ctx) -> Set[str]:
